@@ -110,6 +110,15 @@ func runSeq(sc scenario, work string) (res result) {
 			return
 		}
 		probes = append(probes, "("+rq.coq()+", "+o.pout(rq)+")")
+		if len(rq.Query) > 0 {
+			m := rq.Enc % 8
+			if m >= 5 {
+				m = 1
+			}
+			res.tags = append(res.tags, [...]string{"query-spelling:plain", "query-spelling:directive-keys-encoded",
+				"query-spelling:mixed-directive-keys", "query-spelling:other-keys-and-values-encoded",
+				"query-spelling:everything-encoded"}[m])
+		}
 		if rq.Kind == "media" {
 			hc := hasContentSnap(sc.Cfg, snap.Streams[rq.Stream])
 			one := sc // the failing input is the history with this one request
